@@ -229,11 +229,19 @@ def culling(P, rep, rule="DEP.culling"):
             rep.unknown(rule, "%s: spherical buffer definition not found (%d)" % (cls, len(bufs)))
         else:
             B, Rinv = sp.Symbol("B", positive=True), sp.Symbol("Rinv", positive=True)
+            # 1/R by what it is: a local initialised with 1 / <...>.max_model_depth()
+            rinv_keys = set()
+            for v_ in PF.walk():
+                if v_.get("k") == "VarDecl" and v_.get("c"):
+                    i_ = sc(v_["c"][0])
+                    if i_ is not None and i_.get("k") == "BinaryOperator" and i_.get("op") == "/" and sc(i_["c"][0]).get("k") in ("IntegerLiteral", "FloatingLiteral") \
+                            and float(sc(i_["c"][0])["v"]) == 1.0 and "max_model_depth" in norm.render(P, i_["c"][1]):
+                        rinv_keys.add(v_["r"])
 
             def hook(nn):
                 if nn.get("k") == "MemberExpr" and astq.is_this_field(P, nn) and re.match(r"buffer_around_\w+_cartesian$", nn.get("n", "")):
                     return B
-                if nn.get("k") == "DeclRefExpr" and nn.get("n") == "starting_radius_inv":
+                if nn.get("k") == "DeclRefExpr" and nn.get("r") in rinv_keys:
                     return Rinv
                 if nn.get("k") == "DeclRefExpr" and P.d(nn["r"]).get("qn") == "WorldBuilder::Consts::PI":
                     return sp.pi
